@@ -167,7 +167,54 @@ def judge_large_floor(h, w):
     return None
 
 
+def judge_visibility_histories():
+    """ray-traced views are a function of the grid's CURRENT value and of nothing else: (1) a door of a grid that was already
+    looked at is opened in place (what actuate_door does) - the now unobstructed view shows everything, like a freshly built
+    equal grid; (2) a view handed out earlier is not changed by later queries of the same shape"""
+    from gym_gridverse.grid_object import Color, Door, Wall
+    from ..choice import ChoiceRng
+    n = 0
+    for h, w, dpos, origin in ((5, 5, (2, 2), (4, 2)), (3, 7, (1, 3), (2, 3)), (7, 7, (5, 3), (6, 3)), (4, 4, (1, 1), (3, 0))):
+        for kw in ({}, {'absolute_counts': False, 'threshold': 1}):
+            g = Grid.from_shape((h, w))
+            g[Position(*dpos)] = Door(Door.Status.CLOSED, Color.RED)
+            v0 = np.array(VF['raytracing'](g, Position(*origin), **kw), copy=True)
+            VF['stochastic_raytracing'](g, Position(*origin), rng=ChoiceRng([], random_fill=0.5))
+            g[Position(*dpos)].state = Door.Status.OPEN
+            fresh = Grid.from_shape((h, w))
+            fresh[Position(*dpos)] = Door(Door.Status.OPEN, Color.RED)
+            for name, call in (('raytracing', lambda gg: VF['raytracing'](gg, Position(*origin), **kw)),
+                               ('stochastic_raytracing', lambda gg: VF['stochastic_raytracing'](gg, Position(*origin), rng=ChoiceRng([], random_fill=1 - 1e-9)))):
+                n += 1
+                v1, vf = np.asarray(call(g)), np.asarray(call(fresh))
+                if not vf.all():
+                    return n, f'{name}: unobstructed {h}x{w} view (open door at {dpos}) from {origin} does not show everything'
+                if not np.array_equal(v1, vf):
+                    hidden = [(int(y), int(x)) for y, x in zip(*np.where(~v1))][:4]
+                    return n, (f'{name} {kw or ""}: a door at {dpos} of a grid that had been looked at was opened in place; the now unobstructed '
+                               f'{h}x{w} view from {origin} still hides {hidden} (a freshly built equal grid shows everything)')
+    # (2) retained results
+    for h, w, origin in ((7, 7, (6, 3)), (3, 5, (2, 2)), (5, 5, (2, 2))):
+        for kw in ({}, {'absolute_counts': False, 'threshold': 1}):
+            held = []
+            for walls in ((), ((h - 2, x) for x in range(w)), ((y, w // 2) for y in range(h - 1)), ()):
+                g = Grid.from_shape((h, w))
+                for c in walls:
+                    if tuple(c) != origin:
+                        g[Position(*c)] = Wall()
+                v = VF['raytracing'](g, Position(*origin), **kw)
+                held.append((v, np.array(v, copy=True)))
+                n += 1
+            for v, snap in held:
+                if not np.array_equal(np.asarray(v), snap):
+                    return n, (f'raytracing {kw or ""}: a {h}x{w} view handed out earlier was overwritten by a later query of the same shape '
+                               f'(the unobstructed view no longer shows everything)')
+    return n, None
+
+
 def replay(case):
+    if case['kind'] == 'visibility_histories':
+        return judge_visibility_histories()[1]
     if case['kind'] == 'large_floor':
         return judge_large_floor(case['h'], case['w'])
     if case['kind'] == 'fan_history':
@@ -240,6 +287,10 @@ def run(rep, tier, seed):
 
     for fl in pmap(hist_work, [seqs[i::32] for i in range(32)], fresh=True):
         fails.extend(fl)
+    vk, vm = judge_visibility_histories()
+    if vm:
+        fails.append({'kind': 'visibility_histories', 'message': vm, 'sig': {'fn': 'raytracing', 'part': 'visibility_histories'}, 'simplicity': 0})
+    rep.part('visibility_histories', evaluations=vk)
     fails.sort(key=lambda f: f.get('simplicity', 0))
     # a fan that fails during the exploration but not in isolation depends on the queries made before it in the process
     # (a cache serving the wrong entry): its replay is the query history of its job
